@@ -718,9 +718,12 @@ func indent(l []string) string {
 }
 
 func siteList(d string) string {
+	// distinct blocking sites only (the number of blocked tasks varies)
+	seen := map[string]bool{}
 	var sites []string
 	for _, part := range strings.Split(d, "; ") {
-		if i := strings.LastIndex(part, " at "); i >= 0 {
+		if i := strings.LastIndex(part, " at "); i >= 0 && !seen[part[i+4:]] {
+			seen[part[i+4:]] = true
 			sites = append(sites, part[i+4:])
 		}
 	}
